@@ -202,6 +202,12 @@ CORPUS = {
         msg(2, "unreg", req=2, ref={"kind": "reg", "sess": 2, "req": 1}),
         msg(2, "reg", req=3, uri="p.q", opts=D(invoke=S("roundrobin"))),
         call(3, 3, "p.q"), call(3, 4, "p.q")]),
+    # b725ba2  a leaving subscriber is announced with on_unsubscribe (then on_delete)
+    ("C18", "leave-announces-on-unsubscribe"): dict(realms=[{}], ops=OBS + [
+        join(1, authid="a"), join(2, authid="b"), join(3, authid="c"),
+        sub(3, 1, "wamp.subscription.on_unsubscribe"), sub(3, 2, "wamp.subscription.on_delete"),
+        sub(1, 1, "x.y"), sub(2, 1, "x.y"), sub(1, 2, "x.z"),
+        msg(1, "bye"), drop(2)]),
     ("C18", "kill-all-on-leave"): dict(realms=[{"kill": True}], ops=OBS + [
         join(1, authid="a"), join(2, authid="b"), sub(0, 2, "wamp.session.on_leave"),
         call(0, 3, "wamp.session.kill_all", kwargs=D(reason=S("app.done"), message=S("bye")))]),
